@@ -72,6 +72,18 @@ def existential(live, summ):
                 out += list(conds)
             out.append(comp[2] if not neg else NOT(comp[2]))
             continue
+        # next((e for e in X if c), None) is not None: some element satisfies c (elements are objects, never None)
+        nx = None
+        if cj[0] == "cmp" and cj[1] == "isnot" and cj[3] == NONE:
+            nx = cj[2]
+        elif cj[0] == "call" and cj[1] == ("builtin", "next"):
+            nx = cj
+        if nx is not None and nx[0] == "call" and nx[1] == ("builtin", "next") and len(nx[2]) == 2 and nx[2][1] == NONE \
+                and nx[2][0][0] == "comp" and nx[2][0][1] == "gen":
+            for lid, it, conds in nx[2][0][3]:
+                binders.append((lid, it))
+                out += list(conds)
+            continue
         # truthiness / non-emptiness of a filtered comprehension
         comp = None
         if cj[0] == "comp":
